@@ -214,9 +214,10 @@ Inductive who := WCancel | WWatchdog | WUnlock (idtok : option nat).
 Inductive obs :=
 | EEnq (t : nat) (len : nat)                         (* lock.enqueue: caller t appended, new length *)
 | EEnqRetired (t : nat)                              (* lock.enqueue.retired: refused, caller retries *)
-| ERem (t : nat) (i : nat) (len : nat) (pruned : bool) (w : who)
-                                                     (* lock.remove: caller t was at index i, length after,
-                                                        map entry dropped, and who did it *)
+| ERem (t : nat) (i : nat) (len : nat) (w : who)     (* lock.removed: caller t was at index i, length after,
+                                                        and who did it (logged before the next waiter is woken) *)
+| EPrune                                             (* lock.prune: the queue was retired and its map entry
+                                                        dropped (same critical section as the preceding ERem) *)
 | ERemMiss                                           (* lock.remove.miss: id not queued *)
 | ELockRet (t : nat)                                 (* Lock of caller t returned its id *)
 | ECancelRet (t : nat)                               (* Lock of caller t returned an error *)
@@ -260,14 +261,14 @@ Definition replay_one (prune : bool) (sr : st * list nat) (o : obs) : option (st
       | L0 => if prune && existsb retired (heap s) then Some (s, ret) else None
       | _ => None
       end
-  | ERem t i len pruned w =>
+  | EPrune => if prune && negb (has_entry s) then Some (s, ret) else None
+  | ERem t i len w =>
       let go (s0 : st) (p : nat) (a : action) :=
         match nth_error (heap s0) p with
         | Some q =>
             match index_of t (ents q) 0, step prune s0 a with
             | Some i', Some s' =>
-                if Nat.eqb i i' && Nat.eqb (length (ents q)) (S len) &&
-                   Bool.eqb pruned (negb (has_entry s')) then Some (s', ret) else None
+                if Nat.eqb i i' && Nat.eqb (length (ents q)) (S len) then Some (s', ret) else None
             | _, _ => None
             end
         | None => None
@@ -318,7 +319,7 @@ Fixpoint oracle (q held gone : list nat) (tr : list obs) : N :=
   | o :: r =>
       match o with
       | EEnq t _ => oracle (q ++ [t]) held gone r
-      | ERem t _ _ _ w =>
+      | ERem t _ _ w =>
           if mem_nat t gone then 5%N
           else match w with
                | WUnlock (Some id) => if Nat.eqb id t then oracle (remove_nat t q) (remove_nat t held) (t :: gone) r else 3%N
